@@ -1,7 +1,7 @@
 (* C14 — search returns sound, ordered, disjoint, longest and complete matches.
    Statements only; proofs in Gsm/ScanProofs.v over the model Gsm/Dfa.v
    (find_all after the GD2/GD3 repairs) and the specification Gsm/Scan.v. *)
-From Verif Require Import Base Regex Nfa Dfa DfaProofs Scan ScanProofs Token.
+From Verif Require Import Base Regex Nfa Dfa DfaProofs Scan ScanProofs Token GenCompare TieProofs.
 From Coq Require Import Sorted.
 Open Scope nat_scope.
 
@@ -66,7 +66,21 @@ Section Sem.
   Proof. intros e a w i t Hwf Hd Ha Hn. exact (C14_nonempty peqb peqb_spec accepts e Hwf Hd a Ha Hn w i t). Qed.
 End Sem.
 
+(* the selection rule, the open-group test and the Balanced depth counter of the model are the ones the source states
+   (equal to the definitions regenerated from matcher.py / Pattern.py / Balanced.py on this run) *)
+Theorem C14_operators_tied :
+  (forall (f : cand -> res bool) last_end c rest, f c = OK true ->
+     select_leftmost f last_end (c :: rest) =
+     if find_all_after_last (Z.of_nat (fst c)) (Z.of_nat last_end)
+     then match select_leftmost f (snd c) rest with Err k => Err k | OK r => OK (c :: r) end
+     else select_leftmost f last_end rest) /\
+  (forall d : Z, (0 <? d)%Z = group_is_open d) /\
+  (forall l r d t sat, taccept_st (PBalanced l r) d t =
+     (let '(b, d', _) := balanced_accept (taccept l t) (taccept r t) d sat in (b, d'))).
+Proof. split; [exact tie_select_leftmost|]. split; [exact tie_group_is_open|exact tie_balanced_accept]. Qed.
+
 Print Assumptions C14_find_all_is_scan.
+Print Assumptions C14_operators_tied.
 Print Assumptions C14_bounds_ordered_disjoint.
 Print Assumptions C14_balanced_depth.
 Print Assumptions C14_total.
